@@ -8,13 +8,18 @@ import SigpyVerif.Lemmas.C04Cover
   Identity / Reshape / Transpose / Circshift, and the default `A.H * A` for everything else
   (including ArrayToBlocks / BlocksToArray, for which the pinned commit returned Identity — wrong
   unless the blocks tile the array, `blocks_identity_wrong_witness`).
-  The block theorems (`b2a1_a2b1_cover`, `cover_tiling`, `cover_overlap`, `cover_gap`,
-  `cover_witness`, `blocks_identity_wrong_witness`) live in Lemmas/C04Cover.lean and are about the
-  generated loop nests `Gen.a2b1` / `Gen.b2a1`.
-  FFT/IFFT `normal = Identity` is unitarity of the centred DFT: owned by C05 (not proved here).
+
+  This file: the default rule (`normal_eq_default`, `normal_default`, `normal_gram`).
+  Props/C04Shortcut.lean (imports the C01 leaf-pair theorems): the Identity overrides agree with
+  `Aᴴ A` at the entry level (`shortcut_normal_is_identity_{identity,reshape,transpose,circshift}`) and
+  `normal_denote_leaves` — for every tree over the proved leaf classes `A.N` acts as `x ↦ Aᴴ(A x)`.
+  Lemmas/C04Cover.lean, C04CoverND.lean, C04CoverIff.lean: the block operators, about the generated
+  loop nests `Gen.a2b{1,2,3}` / `Gen.b2a{1,2,3}`: `Aᴴ A` = multiplication by the product of the
+  per-axis cover counts (`b2a1_a2b1_cover`, `b2a2_a2b2_cover`, `b2a3_a2b3_cover`); cover ≡ 1 iff the
+  blocks tile the axis or one block spans it (`cover_one_iff_tiling`); `BlocksToArray.N = Identity`
+  iff `B ≤ S` or a single block (`b2a_normal_identity_iff`, `cover_le_one_iff`).
+  FFT/IFFT `normal = Identity` is unitarity of the centred DFT: owned by C05 (`dftMatrix_unitary`).
   The Toeplitz NUFFT normal is covered by the search oracle only (tolerance 2× the C06 bound).
-  Identity/Reshape/Transpose shortcuts at the flat-index level are validated by the exact matrix
-  correspondence (`MN` stream); for Circshift the per-axis inverse is `circshift_normal_axis`.
 -/
 set_option linter.unusedSectionVars false
 namespace SigpyVerif.C04
